@@ -40,6 +40,10 @@ def plan(tier, seed):
 
 def gen_case(rng):
     w, ac, xc = gen.rotvec(rng, return_cls=True)
+    if rng.random() < 0.05:
+        # a rotation a hair short of a half turn about an axis with one tiny component: the badly scaled pivot of the half-turn formulas
+        ac, xc = gen.pick(rng, ["pi-1e-7", "pi-1e-8", "pi-1e-9", "near_pi", "near_pi"]), "small_component"
+        w = gen.axis(rng, xc) * gen.angle(rng, ac)
     v = gen.vec3(rng, 1e3)
     p = gen.vec3(rng, 1e3)
     if rng.random() < 0.5:
